@@ -63,3 +63,38 @@ CHECKS["C08"] = (
  "7*10^5 (quick) / 1.8*10^7 (thorough) cases: generated well-formed stylesheets and inline declaration lists must yield exactly the abstract unit sequence (type, lower-cased name, Values() with the whitespace rules of the statement); on hostile byte strings every Begin/End unit is matched against a shadow stack while no parse error was reported (also against the hooked state-stack depth), every token reported through data or Values() must be one of the lexer tokens consumed by that call, in source order, and the stream must end with ErrorGrammar/io.EOF within 2*tokens+8 calls and stay there. Held on what was observed.",
  "Whitespace is generated only at positions on which the statement is explicit (see evidence assumptions); Values() is checked only for the unit kinds its documentation names plus parse-error units.",
  "DESIGN.md §4 C08")
+CHECKS["C03"] = (
+ "construction-time ground truth: abstract programs spelled in several styles, metamorphic comparison of String() against the fully parenthesised spelling, generator-side WhileToFor rewrite, rejection mutants (runtime monitoring)",
+ "10^5 (quick) / 2.7*10^6 (thorough) cases: every generated ES2022 program is spelled in a fully parenthesised reference style and four other styles (minimal/redundant parentheses, whitespace/comments/line breaks, ';' vs ASI); all spellings must be accepted under every applicable Options value and give, after removing GroupExpr, the String() of the reference spelling; WhileToFor must give the tree of the generator-rewritten for-loop program; single-bracket mutants, forbidden operator combinations and duplicate lexical declarations must be rejected without a tree. Evidence lists operator-in-operator pairs and node kinds observed. Held on what was observed.",
+ "The fully parenthesised spelling is taken as the definition of the prescribed structure (it leaves the parser no precedence/associativity/ASI decision). Generator domain listed in the evidence assumptions; generated programs were cross-checked for validity with an independent engine during development only.",
+ "DESIGN.md §4 C03")
+CHECKS["C04"] = (
+ "reference-model monitor: the generator's own ECMAScript scope resolver labels every identifier; the library tree is renamed, printed and lexed, and the identifier tokens are aligned with the generator's (runtime monitoring)",
+ "4*10^5 (quick) / 1.2*10^7 (thorough) generated programs with names drawn from a pool of five (shadowing at every level, hoisting through blocks, closures, catch clauses, loop heads, classes, parenthesised lists that are or are not arrow heads): same binding <=> same fresh name, unbound names unchanged and listed in the outermost Undeclared, Var.Uses == printed occurrences, renamed program accepted. Three recorded known findings are probed individually. Held on what was observed.",
+ "Domain restrictions (no forward references between parameters, literal-only pattern defaults, declarations one block below a for body, no class-expression self reference) are listed in the evidence assumptions and DESIGN.md.",
+ "DESIGN.md §4 C04")
+CHECKS["C05"] = (
+ "round-trip monitor (parse, print, re-parse, re-print) over generated programs, literal-stress snippets and mutated corpus entries, through JSString and JS(Indenter) (runtime monitoring)",
+ "3.5*10^5 (quick) / 9*10^6 (thorough) inputs: for every accepted valid-UTF-8 input under a random Options value the printed text must be accepted, its tree (String() after removing GroupExpr) must equal the original and re-printing must reproduce the text byte for byte, also when printed through an outer parse.Indenter of width 0-8 and for literals with line breaks nested in 0-6 blocks. Held on what was observed.",
+ "Tree identity is observed through String() after a reflection-based removal of GroupExpr nodes.",
+ "DESIGN.md §4 C05")
+CHECKS["C06"] = (
+ "construction-time ground truth from a token-sequence generator with a conservative would-merge predicate, lexer state hook H4, canonical-spelling monitor on hostile bytes (runtime monitoring)",
+ "1.9*10^6 (quick) / 6.2*10^7 (thorough) cases: token sequences over the whole ECMAScript vocabulary (all punctuators, reserved and contextual keywords, identifiers with escapes and astral letters, all numeric forms, strings, nested templates, comments, all whitespace and line-terminator kinds) must lex to exactly the written (type, text) sequence, RegExp() must return the written literal, the hooked bracket level / open-template count must match the generator's; on hostile bytes every punctuator/keyword token's canonical spelling must equal its text. Evidence keeps the adjacent-kind pair matrix. Held on what was observed.",
+ "Separators are inserted whenever merging cannot be excluded; domain exclusions (legacy octal, HTML-like comment openers, regular expressions without RegExp()) are listed in the evidence assumptions.",
+ "DESIGN.md §4 C06")
+CHECKS["C15"] = (
+ "reference-model monitor for Position (line/column/context) on generated texts at every offset, error-offset hook H1 on hostile inputs for every lexer/parser, illegal-character insertion at token boundaries of generated JS/JSON (runtime monitoring)",
+ "1.75*10^5 (quick) / 4.5*10^6 (thorough) cases (about 4*10^6 Position evaluations in the quick tier): line and column against an independent reference for all five break kinds, context layout and caret position, every *parse.Error's offset inside the input and its line/column/context equal to Position(input, offset), and exact position of one illegal character inserted between two tokens. Held on what was observed.",
+ "Context layout details the statement leaves open (number column width, how a U+2028 ends the context line) are not judged; see evidence assumptions.",
+ "DESIGN.md §4 C15")
+CHECKS["C18"] = (
+ "trace monitor over the Enter/Exit log of a recording visitor against a reflection walk of the same tree (runtime monitoring)",
+ "2*10^5 (quick) / 5*10^6 (thorough) trees from generated programs and mutated corpus entries x three visitor policies: every statement/expression/binding/identifier/block position entered (exactly once per position when descending everywhere), parent before child, Exit once per non-nil Enter in stack order, nothing entered below a node whose Enter returned nil, no entered node from outside the tree. Held on what was observed.",
+ "Required positions are defined by reflection over exported fields other than Scope; Walk may additionally enter sub-structures.",
+ "DESIGN.md §4 C18")
+CHECKS["C20"] = (
+ "Go race detector over goroutines driving private instances of every entry point, digest comparison concurrent vs sequential, history-independence digests, data-segment/heap-one-level snapshot diff of library package variables (runtime monitoring)",
+ "2.5*10^4 (quick) / 7.5*10^5 (thorough) cases: 8-64 goroutines run 48 entry-point families on private copies under -race (a race report fails the case; concurrent digests must equal sequential ones; the full entry x entry matrix is covered), pool cases are replayed after different prefixes and orders in several processes (digests must not depend on history), and all library data/bss symbols (followed one level through pointers, slices and maps) are snapshotted before and after mixed workloads. Held on what was observed.",
+ "Rests on the race detector's happens-before analysis of the executions produced; the 'no mutable package state' clause is decided by the snapshot diff instead of a static scan.",
+ "DESIGN.md §4 C20")
